@@ -4,6 +4,7 @@
 *******************************************************************************/
 #pragma once
 #include <charconv>
+#include <cmath>
 #include <limits>
 #include <stdexcept>
 #include "bitserializer/config.h"
@@ -31,7 +32,8 @@ namespace BitSerializer::Convert::Detail
 			{
 				if constexpr (std::is_floating_point_v<TTarget>)
 				{
-					if (result = sizeof(TTarget) > sizeof(TSource)
+					// Infinity and NaN are representable in every floating-point type (they fail the range comparison below)
+					if (result = sizeof(TTarget) > sizeof(TSource) || !std::isfinite(sourceValue)
 						|| (sourceValue >= std::numeric_limits<TTarget>::lowest() && sourceValue <= std::numeric_limits<TTarget>::max()); result)
 					{
 						targetValue = static_cast<TTarget>(sourceValue);
